@@ -1045,6 +1045,14 @@ func (t *tr) call(c *ast.CallExpr, stmt bool) ([]string, []T) {
 		if fi.mayPanic && !t.mayPanic {
 			t.fail(c, "call of panicking %s from a non-panicking function", fi.spec.Lean)
 		}
+		if fi.spec.Inner {
+			// the callee returns a closure (translated as a function of the closure's own parameters): the call is the
+			// partial application to the outer arguments
+			if len(fi.spec.Extra) > 0 {
+				t.fail(c, "closure-returning callee %s with extra parameters", fi.spec.Lean)
+			}
+			return []string{app}, []T{t.g.goT(t.typeOf(c))}
+		}
 		n := t.fresh()
 		if fi.mayPanic {
 			t.emit("let %s ← %s", n, app)
